@@ -81,10 +81,10 @@ def main(argv):
     try:
         core.use_repo()
         mod = load_prop(spec["prop"])
+        if hasattr(mod, "setup"):
+            mod.setup(spec["tier"])     # may adjust sys.path (C02: ASan)
         for name in getattr(mod, "IMPORTS", ()):
             importlib.import_module(name)
-        if hasattr(mod, "setup"):
-            mod.setup(spec["tier"])
     except Exception as e:  # un-importable API under test
         result["import_error"] = core.format_tb(e)
         json.dump(result, open(argv[2], "w"))
